@@ -1,7 +1,7 @@
 (* C19/Props.v — the property theorems.  Nothing else. *)
 From Coq Require Import List NArith ZArith Bool Arith Lia.
 From Gen Require Import C19.
-From C19 Require Import Model Wf Protocol ProofsParse ProofsTotal ProofsProtocol ProofsTie.
+From C19 Require Import Model Wf Protocol ProofsParse ProofsTotal ProofsProtocol ProofsTie ProofsNested.
 Import ListNotations.
 Local Open Scope N_scope.
 
@@ -33,6 +33,16 @@ Theorem parse_explain_id_fragment_gpos :
     M_parse U F (M_explain_gpos U F ll) = POk ll.
 Proof. exact parse_explain_gpos. Qed.
 Print Assumptions parse_explain_id_fragment_gpos.
+
+(* nested-action lists (the "1@0 2@1" of contextual lookups): the text written
+   by explainNested is read back by readNestedLookups as the same list, for
+   all lists of 16-bit (lookup index, sequence index) pairs *)
+Theorem nested_actions_roundtrip :
+  forall (U : uclass) (acts : list (N * N)),
+    Forall (fun a => fst a < 65536 /\ snd a < 65536) acts ->
+    M_parse_nested U (M_explain_nested acts) = POk acts.
+Proof. exact nested_roundtrip. Qed.
+Print Assumptions nested_actions_roundtrip.
 
 (* the flag names written and read coincide (defect 5.A-19), on the tables
    regenerated from explain.go and parser.go on this run *)
@@ -77,6 +87,17 @@ Theorem parse_total_items :
     total_result Lok (M_parse_tokens F ts).
 Proof. exact parse_tokens_total. Qed.
 Print Assumptions parse_total_items.
+
+(* readNestedLookups on any text: a list, or an error on a line of the text *)
+Theorem parse_nested_total :
+  forall (U : uclass) (text : list N),
+    match M_parse_nested U text with
+    | POk _ | PUnmodelled => True
+    | PErr l => 1 <= l <= 1 + newlines text
+    | PPanic | PFuel => False
+    end.
+Proof. exact parse_nested_total_text. Qed.
+Print Assumptions parse_nested_total.
 
 Theorem lexer_items_well_formed :
   forall (U : uclass) (text : list N),
